@@ -348,6 +348,9 @@ func (w *qWorld) applyVoids() {
 			if mc != nil && len(mc.dels) > 0 && lastDel(mc).Answer != "" && lastDel(mc).AnsStep >= c.VoidStep {
 				continue // being requeued/finished while the empty/delete ran: in nobody's queue at that moment
 			}
+			if mc != nil && len(mc.dels) > 0 && lastDel(mc).touchStep > 0 && lastDel(mc).touchStep >= c.VoidStep {
+				continue // being touched (taken out and put back) while the empty/delete ran: likewise
+			}
 			reached := mc != nil && len(mc.dels) > 0
 			if !reached && !p.TopicPausedAtSend && !t.pausedBetween(p.SendStep, c.VoidStep) && c.CreatedStep < p.SendStep && c.lastDeleteStep < p.SendStep {
 				for _, n := range p.ChansAtPub {
